@@ -139,7 +139,12 @@ where C: FullDuplexMultiChannel<ItemType = u32> + Send + Sync + 'static,
                             last_created = Some(id as usize);
                             verif::resume(me);
                             ret(tid, 17, id as i64, 0);
-                        } else { verif::resume(me); ret(tid, 19, 0, 0); }
+                        } else {
+                            // every id is in use: the creation is attempted all the same - it must be refused (it panics) and change nothing
+                            let r = std::panic::catch_unwind(std::panic::AssertUnwindSafe(|| chan.create_stream_for_new_events().1));
+                            verif::resume(me);
+                            match r { Err(_) => ret(tid, 19, 0, 0), Ok(id) => ret(tid, 17, id as i64, 0) }
+                        }
                     },
                     "drop" => {
                         let i = op.arg(0) as usize;
